@@ -6,4 +6,5 @@ func init() {
 	Engines["C03"] = Engine{Run: wirew.RunC03}
 	Engines["C12"] = Engine{Run: wirew.RunC12}
 	Engines["C04"] = Engine{Run: wirew.RunC04}
+	Engines["C18"] = Engine{Run: wirew.RunC18}
 }
